@@ -6,7 +6,7 @@
 (* the real library (TVParser validates what it did).                        *)
 EXTENDS ScpiParser, ParserVocab, Json, IOUtils
 
-CONSTANTS MaxUnits, MaxSig, MaxItems, WsVariants, KindIdx, NParts, Part
+CONSTANTS MaxUnits, MaxSig, MaxItems, WsVariants, KindIdx, ItemIdx, NParts, Part
 VARIABLE sc
 LF == <<10>>
 Sc(t, s, b, ch, meta) == [table |-> t, scripts |-> s, buf |-> b, mode |-> "I", chunks |-> ch, meta |-> meta]
@@ -36,6 +36,18 @@ InitC05 == \E sig \in Seqs((KindIdx \cap (1..Len(C05Kinds))) \X BOOLEAN, MaxSig)
           lst == Pick(C05Items, its) \o (IF tail > 0 THEN <<C05Bad[tail]>> ELSE <<>>)
           msg == CmdPat \o (IF lst = <<>> THEN <<>> ELSE Lead(w) \o JoinSeq(Sep(w), lst)) \o (IF w = 1 /\ lst # <<>> THEN <<32>> ELSE <<>>) \o LF
       IN sc = Sc(<<<<CmdPat, 1>>>>, <<<<1, 1, 1, ops>>>>, 256, IF fl THEN <<SubSeq(msg, 1, Len(msg) - 1), <<>>>> ELSE <<msg>>, [hdrs |-> <<CmdPat>>])
+
+(* C05, array readers: [one reader] SCPI_ParamArray<kind>(n, mandatory) [one reader] against lists of 0..MaxItems items *)
+ArrKindsP == <<"i32", "u32", "i64", "u64", "flt", "dbl">>
+InitC05a == \E k \in KindIdx \cap (1..Len(ArrKindsP)), n \in 0..3, m \in BOOLEAN, pre \in 0..MaxSig, post \in 0..MaxSig, st \in BOOLEAN,
+               its \in Seqs(ItemIdx \cap (1..Len(C05Items)), MaxItems), tail \in 0..Len(C05Bad) :
+   /\ (k + n + Len(its)) % NParts = Part
+   /\ (tail > 0 => Len(its) <= 1 /\ pre = 0 /\ post = 0)
+   /\ LET one(x) == IF x = 0 THEN <<>> ELSE <<<<"p", IF x = 1 THEN "i32" ELSE "text", x = 1>>>>
+          ops == one(pre) \o <<<<"pa", ArrKindsP[k], n, m>>>> \o one(post)
+          lst == Pick(C05Items, its) \o (IF tail > 0 THEN <<C05Bad[tail]>> ELSE <<>>)
+          msg == CmdPat \o (IF lst = <<>> THEN <<>> ELSE <<32>> \o JoinSeq(<<44>>, lst)) \o LF
+      IN sc = Sc(<<<<CmdPat, 1>>>>, <<<<1, 1, IF st THEN 1 ELSE 0, ops>>>>, 256, <<msg>>, [hdrs |-> <<CmdPat>>])
 
 (* C05, several units in one message: the accounting of one unit must not depend on errors of earlier units *)
 InitC05m == \E us \in NESeqs(1..Len(C05mUnits), MaxUnits) :
@@ -80,6 +92,12 @@ InitC17 ==
         sc = ScArr(<<<<"bh", n>>>> \o [i \in 1..Len(c) |-> <<"bd", SubSeq(BlkData(n), PrefSum(c, i - 1) + 1, PrefSum(c, i))>>] \o << <<"r", "i32", 7>> >>)
   \/ \E n \in 0..3, k \in 0..3 : k <= n /\ Part = (n + k) % NParts /\           \* k bytes sent, then one byte too many, then the rest
         sc = ScArr(<< <<"bh", n>>, <<"bd", SubSeq(BlkData(n), 1, k)>>, <<"bd", [i \in 1..(n - k + 1) |-> 66]>>, <<"bd", SubSeq(BlkData(n), k + 1, n)>>, <<"r", "i32", 7>> >>)
+  \/ \E n \in 1..3, k \in 0..2, m \in 0..3, two \in BOOLEAN :      \* a unit leaves a block unfinished; the next unit sends data without a header
+        /\ k < n /\ Part = (n + k + m) % NParts
+        /\ LET QRaw == <<82, 65, 87, 63>> IN
+           sc = Sc(<<<<QArr, 1>>, <<QRaw, 2>>>>,
+                   << <<1, 1, 0, <<<<"bh", n>>, <<"bd", SubSeq(BlkData(n), 1, k)>>>>>>, <<2, 1, 0, <<<<"bd", [i \in 1..m |-> 119 + i]>>, <<"r", "i32", 7>>>>>> >>,
+                   256, IF two THEN <<QArr \o LF, QRaw \o LF>> ELSE <<QArr \o <<59>> \o QRaw \o LF>>, [hdrs |-> <<>>])
   \/ \E n \in BigLens : Part = n % NParts /\ sc = ScArr(<< <<"bh", n>> >>)
   \/ Part = 0 /\ sc = ScArr(<< <<"r", "blk", [i \in 1..66000 |-> (i * 7) % 251]>>, <<"r", "i32", 7>> >>)     \* a block longer than 65535 bytes, with its data
 (* C01: every byte string up to MaxUnits + 1 bytes over one representative per character class, bare and as the data of a header, *)
@@ -105,6 +123,7 @@ SpecC17 == InitC17 /\ [][Next]_sc
 SpecC02 == InitC02 /\ [][Next]_sc
 SpecC05 == InitC05 /\ [][Next]_sc
 SpecC05m == InitC05m /\ [][Next]_sc
+SpecC05a == InitC05a /\ [][Next]_sc
 SpecC06 == InitC06 /\ [][Next]_sc
 SpecC08 == InitC08 /\ [][Next]_sc
 
